@@ -13,6 +13,7 @@ import EaselModel.Gencode.Extras
 import EaselModel.Gencode.ReadTotal
 import EaselModel.Gencode.WriteTotal
 import EaselModel.Gencode.ReadCode
+import EaselModel.Gencode.ReadComplete
 import EaselModel.Alphabet.Iupac
 /-! # C17 — property theorems (statements + glue only; lemmas live in Gencode/*.lean)
 
@@ -247,15 +248,23 @@ theorem read_never_faults_hyps :
 /-- WHAT `esl_gencode_Read` ACCEPTS IS A GENETIC-CODE TABLE — for ANY bytes of the file (valid, damaged, binary) and whatever
     the new object was initialised with: if the answer is `eslOK` then both arrays have 64 entries, EVERY one of the 64 codons
     has been assigned by a column of the file (nothing of the initial table 1 survives) to one of the 20 amino acids or the
-    stop code (`Kp − 2` = `*`), every initiator flag is 0 or 1, the id is −1 and the description empty. (That all 20 amino
-    acids and a stop occur among the 64 entries is the code's own final test, modelled in `read` and monitored on every
-    accepted file.) -/
+    stop code (`Kp − 2` = `*`), every initiator flag is 0 or 1, the id is −1 and the description empty. -/
 theorem read_ok_is_code (nt aa : Alphabet) (init : Gencode) (hi : CodeOK init) (buf : List Nat) (g : Gencode)
     (h : read nt aa init buf = some g) :
     CodeOK g ∧ g.translTable = -1 ∧ g.desc = "" ∧
     ∀ c, c < 64 → (g.basic.getD c 99 < aa.K ∨ g.basic.getD c 99 + 2 = aa.Kp) ∧ g.isInit.getD c 9 ≤ 1 := by
   obtain ⟨a, b, c, d, e⟩ := EaselModel.Gencode.read_ok_is_code nt aa init hi.1 hi.2 buf g h
   exact ⟨⟨a, b⟩, c, d, e⟩
+
+/-- … AND IT ENCODES ALL 20 AMINO ACIDS AND HAS A STOP CODON: for any bytes of the file, in an accepted table every amino-acid
+    code `x < 20` is the translation of some codon and some codon translates to the stop code. The C code tests this per COLUMN
+    of the file; the proof shows that no column can have overwritten another (64 columns onto 64 codons that are all seen:
+    every codon is assigned exactly once), so what the columns announced is what the table holds. With `read_ok_is_code`:
+    `esl_gencode_Read` answers `eslOK` only for genuine genetic codes — complete, every entry an amino acid or stop. -/
+theorem read_ok_is_complete (nt aa : Alphabet) (hK : nt.K = 4) (hKa : aa.K = 20) (init : Gencode) (hi : CodeOK init)
+    (buf : List Nat) (g : Gencode) (h : read nt aa init buf = some g) :
+    (∀ x, x < 20 → ∃ c, c < 64 ∧ g.basic.getD c 99 = x) ∧ (∃ c, c < 64 ∧ g.basic.getD c 99 + 2 = aa.Kp) :=
+  EaselModel.Gencode.read_ok_is_complete nt aa hK hKa init hi.1 buf g h
 
 /-- TOTALITY OF `esl_gencode_Write`: on a well-formed code object (64 entries in both arrays, every translation an index into
     `aa_abc->sym`, a nucleotide alphabet that digitizes T (U), C, A, G to 0..3) it reads only inside its arrays and produces
